@@ -241,10 +241,10 @@ func schnorrCase[GE algebra.PrimeGroupElement[GE, S], S algebra.PrimeFieldElemen
 	}
 
 	// ONE alteration
-	alt := rapid.SampledFrom([]string{
+	alt := flatPick(t, "alt", []string{
 		"msg", "R+G", "R-neg", "R-double", "R-other", "R-identity", "s+1", "s-neg", "s-random", "s-zero",
 		"E-replaced", "E-nil", "forged-with-E", "pk-other", "pk-neg", "pk+G", "pk-identity", "cfg-hash", "cfg-le", "cfg-neg",
-	}).Draw(t, "alt")
+	})
 	aR, as, aP, am, acfg := R, s, P, msg, cfg
 	aE := sig.E
 	eNil := false
